@@ -221,10 +221,16 @@ def recorder_run(ctx):
 
     rec_file = os.path.join(ctx.work, "recorder.ndjson")
     env = dict(os.environ, UXARRAY_VERIF="1", VERIF_RECORD_FILE=rec_file, PYTHONPATH=os.path.join(hux.VERIF, "harness") + os.pathsep + hux.VERIF, PYTHONDONTWRITEBYTECODE="1")
+    # the suite writes scratch files relative to its working directory (test_grid: grid_geoflow.exo): leave the tree as found
+    before = set(os.listdir(hux.REPO))
     p = subprocess.run(
         [sys.executable, "-m", "pytest", "-q", "-p", "no:cacheprovider", "-p", "verif_recorder", "--timeout=900", "--continue-on-collection-errors"],
         cwd=hux.REPO, env=env, capture_output=True, text=True, timeout=3000,
     )
+    for name in set(os.listdir(hux.REPO)) - before:
+        path = os.path.join(hux.REPO, name)
+        if os.path.isfile(path) and name.endswith((".exo", ".nc", ".ug", ".g")):
+            os.remove(path)
     if not os.path.exists(rec_file):
         raise Machinery("recorder run wrote no records:\n" + (p.stdout + p.stderr)[-1500:])
     recs = [json.loads(l) for l in open(rec_file)]
